@@ -661,6 +661,7 @@ func (e *c19Env) killJobs(s c19Scenario, del bool, big bool) ([]c19Job, error) {
 		return nil, err
 	}
 	calls := c19Project(r.lines, dry)
+	dryTerms := c19Terms(calls, false) // the calls of the whole operation, for the class-level agreement
 	type point struct {
 		sys  string
 		when int
@@ -702,14 +703,14 @@ func (e *c19Env) killJobs(s c19Scenario, del bool, big bool) ([]c19Job, error) {
 			d["inject"] = inj
 			d["store_calls_completed"] = done
 			d["killed"] = r.killed
-			return e.afterStop(s, del, big, dir, pre, fmt.Sprintf("(AtCall %d)", done), d)
+			return e.afterStop(s, del, big, dir, pre, fmt.Sprintf("(AtCall %d)", done), d, dryTerms)
 		})
 	}
 	return jobs, nil
 }
 
 // the fresh-process view after a stop, as a case
-func (e *c19Env) afterStop(s c19Scenario, del, big bool, dir string, pre []c19File, stop string, d map[string]any) ([]c19Case, error) {
+func (e *c19Env) afterStop(s c19Scenario, del, big bool, dir string, pre []c19File, stop string, d map[string]any, dry string) ([]c19Case, error) {
 	o, err := e.observe(dir+"/", s.key, big)
 	if err != nil {
 		return nil, err
@@ -737,11 +738,17 @@ func (e *c19Env) afterStop(s c19Scenario, del, big bool, dir string, pre []c19Fi
 		}
 		d["observed"] = obs
 		term := fmt.Sprintf("BigKill %d %s %d %d %s %s %s", s.key, coqBool(hasOld), len(s.lens), len(nw), stop, obs, coqBool(loadable))
+		if dry != "" {
+			term = fmt.Sprintf("BigKillG %d %s %d %d %s %s %s %s", s.key, coqBool(hasOld), len(s.lens), len(nw), dry, stop, obs, coqBool(loadable))
+		}
 		return []c19Case{{term, d, "big-kill", true}}, nil
 	}
 	ld, listed := o.terms()
 	if del {
 		return []c19Case{{fmt.Sprintf("DelKill %d %s %s %s %s", s.key, c19Odir(pre), stop, ld, listed), d, "delete-kill", true}}, nil
+	}
+	if dry != "" {
+		return []c19Case{{fmt.Sprintf("SaveKillG %d %s %s %s %s %s %s", s.key, c19CoqBufs(s.bufs()), c19Odir(pre), dry, stop, ld, listed), d, "save-kill", true}}, nil
 	}
 	return []c19Case{{fmt.Sprintf("SaveKill %d %s %s %s %s %s", s.key, c19CoqBufs(s.bufs()), c19Odir(pre), stop, ld, listed), d, "save-kill", true}}, nil
 }
@@ -781,7 +788,7 @@ func (e *c19Env) fsizeKillJob(s c19Scenario, lim int, big, traced bool) c19Job {
 			}
 			d["signal"] = "SIGXFSZ"
 		}
-		return e.afterStop(s, false, big, dir, pre, fmt.Sprintf("(AtBytes %d)", lim), d)
+		return e.afterStop(s, false, big, dir, pre, fmt.Sprintf("(AtBytes %d)", lim), d, "")
 	}
 }
 
